@@ -102,32 +102,52 @@ def templates_for(parts):
     return tm, tf
 
 
-def run_template(cls, parts, vals):
+FORMAT_SPECS = [">4", "<6", "^5", ".3", "8.2", "_^7", "6.4", ">1", ".0"]
+# str.format left-aligns strings by default, %Ns right-aligns
+PERCENT_SPECS = {">4": "%4s", "<6": "%-6s", ".3": "%.3s", "8.2": "%-8.2s", "6.4": "%-6.4s", ">1": "%1s", ".0": "%.0s"}
+
+
+def run_template(cls, parts, vals, specs=None, raw=None):
     """Every engine/field syntax must give the same result; [97, r_mod, r_other] when two disagree:
-    the % operator, and format() with {} / {:s} / {!s} / {0}.. / {name} fields."""
+    the % operator, and format() with {} / {:s} / {!s} / {0}.. / {name} fields.
+    With `specs` (one format spec per field) and `raw` values, vals[j] == format(raw[j], specs[j])
+    (computed by CPython): the reference is the plain %s template with the already formatted values;
+    format() with {:spec} / {0:spec} / {name:spec} fields and the raw values must give the same;
+    so must the % operator with the equivalent %<width>.<prec>s conversion ([96, ...] when not)."""
     tm, tf = templates_for(parts)
     arg = tuple(vals) if (len(vals) != 1 or len(vals[0]) % 2 == 0) else vals[0]
     r1 = _markup(cls, lambda: cls(tm) % arg)
     lit = [p.replace("{", "{{").replace("}", "}}") for p in parts]
 
-    def join(field):
-        out = lit[0]
+    def join(field, lits=lit):
+        out = lits[0]
         for j in range(len(vals)):
-            out += field(j) + lit[j + 1]
+            out += field(j) + lits[j + 1]
         return out
-    variants = [(tf, vals, {}),
-                (join(lambda j: "{:s}"), vals, {}),
-                (join(lambda j: "{!s}"), vals, {}),
-                (join(lambda j: "{%d}" % j), vals, {}),
-                (join(lambda j: "{v%d}" % j), [], {"v%d" % j: v for j, v in enumerate(vals)})]
+    if specs:
+        variants = [(join(lambda j: "{:%s}" % specs[j]), raw, {}),
+                    (join(lambda j: "{%d:%s}" % (j, specs[j])), raw, {}),
+                    (join(lambda j: "{v%d:%s}" % (j, specs[j])), [], {"v%d" % j: v for j, v in enumerate(raw)})]
+    else:
+        variants = [(tf, vals, {}),
+                    (join(lambda j: "{:s}"), vals, {}),
+                    (join(lambda j: "{!s}"), vals, {}),
+                    (join(lambda j: "{%d}" % j), vals, {}),
+                    (join(lambda j: "{v%d}" % j), [], {"v%d" % j: v for j, v in enumerate(vals)})]
     for t, a, kw in (variants if vals else variants[:1]):
         r2 = _markup(cls, lambda: cls(t).format(*a, **kw))
         if r1 != r2:
             return [97, r1, r2]
+    if specs and all(sp in PERCENT_SPECS for sp in specs):
+        plit = [p.replace("%", "%%") for p in parts]
+        t = join(lambda j: PERCENT_SPECS[specs[j]], plit)
+        r3 = _markup(cls, lambda: cls(t) % tuple(raw))
+        if r1 != r3:
+            return [96, r1, r3]
     return r1
 
 
-def impl_case(case):
+def impl_case(case, m=None):
     from prompt_toolkit.formatted_text import ANSI, HTML, to_formatted_text
     from prompt_toolkit.formatted_text.ansi import ansi_escape
     from prompt_toolkit.formatted_text.html import html_escape
@@ -147,7 +167,8 @@ def impl_case(case):
             s = unS(case[2])
             return _markup(ANSI, lambda: ANSI(s))
         if k == 4:
-            return run_template(ANSI, [unS(p) for p in case[2]], [unS(v) for v in case[3]])
+            return run_template(ANSI, [unS(p) for p in case[2]], [unS(v) for v in case[3]],
+                                (m or {}).get("specs"), (m or {}).get("raw"))
         if k == 5:
             s = unS(case[2])
             return [S(ansi_escape(s)), S(html_escape(s))]
@@ -155,7 +176,8 @@ def impl_case(case):
             s = unS(case[2])
             return _markup(HTML, lambda: HTML(s))
         if k == 7:
-            return run_template(HTML, [unS(p) for p in case[2]], [unS(v) for v in case[3]])
+            return run_template(HTML, [unS(p) for p in case[2]], [unS(v) for v in case[3]],
+                                (m or {}).get("specs"), (m or {}).get("raw"))
     except BaseException as e:  # noqa
         if isinstance(e, (KeyboardInterrupt, SystemExit)):
             raise
@@ -338,7 +360,11 @@ def _inert_check(kind, parts, vals, holes, run):
     # the documented fg/bg guard: a value with whitespace at an attribute position may be refused
     guard = any(h != "t" and any(c.isspace() for c in v) for h, v in zip(holes, vals))
     if rv[0] == 97:
-        return "the %% operator and format() disagree: %r vs %r" % (rv[1], rv[2])
+        return ("%s template %r with (formatted) values %r: the %% operator and a format() field syntax disagree: %r vs %r"
+                % (kind, parts, vals, short(rv[1], 120), short(rv[2], 120)))
+    if rv[0] == 96:
+        return ("%s template %r: the %% operator with a width/precision conversion gives %r, expected the value formatted by "
+                "the conversion and then shown as text: %r" % (kind, parts, rv[2], rv[1]))
     if rv[0] != 0:
         if rv[0] == 1 and guard:
             return None
@@ -397,6 +423,8 @@ def oracle_inert(kind, parts, vals, holes, run):
     op = kind + "-interpolation"
     if "disagree" in what:
         return (what, {"op": op, "family": "engines-differ"})
+    if "width/precision conversion" in what:
+        return (what, {"op": op, "family": "percent-conversion-on-escaped-text"})
     fam = "other"
     cur = list(vals)
     for name, rw in _causes(kind):
@@ -658,6 +686,25 @@ def gen_cases(chk, cfg):
         vals = ["".join(rng.choice(VAL_ALPHA) for _ in range(rng.choice([0, 1, 2, 3, 5]))) for _ in parts[1:]]
         add("ANSI-template/random", [4, cfg, [S(p) for p in parts], [S(v) for v in vals]], {"holes": ["t"] * len(vals)})
 
+    # ---- format specs (width / alignment / precision): the value formatted by the spec, then inert text
+    spec_vals = list(words(["a", "<", "&", '"', "'", ">", "\x1b"], 2)) + ["a<b>c", "&&&&", "x<y>z", "<&>", "a&b", "\x9b31m", "\xe9<\u754c"]
+    if thorough:
+        spec_vals += [w for w in words(["a", "<", "&", '"', "'"], 4) if len(w) >= 3]
+    for kk, tpls in ((4, [(["a", "b"], ["t"]), (["\x1b[31m", "|\x1b[0m", "."], ["t", "t"])]),
+                     (7, [(["<b>", "</b>|"], ["t"]), (["", ""], ["t"]), (["<i>", "-", "</i> tail"], ["t", "t"]),
+                          (["<style fg=\"", "\">x</style>"], ["d"])])):
+        for parts, holes in tpls:
+            for sp in FORMAT_SPECS:
+                if kk == 7 and "<" in sp:
+                    continue            # an HTML template is itself parsed as XML: it cannot contain this spec
+                for v in spec_vals:
+                    raw = [v] if len(holes) == 1 else [v, v[::-1]]
+                    sp2 = FORMAT_SPECS[(FORMAT_SPECS.index(sp) + 3) % len(FORMAT_SPECS)]
+                    specs = [sp] if len(holes) == 1 else [sp, ".3" if (kk == 7 and "<" in sp2) else sp2]
+                    vals = [format(r, q) for r, q in zip(raw, specs)]
+                    add("%s-template/format-spec" % ("ANSI" if kk == 4 else "HTML"),
+                        [kk, cfg, [S(p) for p in parts], [S(x) for x in vals]], {"holes": holes, "specs": specs, "raw": raw})
+
     # ---- escape functions
     esc_alpha = sorted(set(VAL_ALPHA + HTML_VAL_ALPHA + ["\x00", "\ufffe", "\x7f", "\x85"]))
     for w in words(esc_alpha, 2):
@@ -814,7 +861,7 @@ def main(tier):
             impl_results.append(["MALFORMED"])
             chk.count_case(c, False)
             continue
-        res = sx_norm(impl_case(c))
+        res = sx_norm(impl_case(c, m))
         impl_results.append(res)
         chk.count_case(c, nontrivial(c, res))
         try:
@@ -824,6 +871,8 @@ def main(tier):
         if bad:
             oracle_bad.add(i)
             what, tags = bad
+            if m and m.get("specs"):
+                what += " [format specs %r applied to raw values %r]" % (m["specs"], m["raw"])
             chk.violation("oracle", what, tags, {"case": c, "meta": m, "observed": res, "input": describe_case(c),
                                                 "how": "see harness/c18.py impl_case: the real ANSI/HTML/split_lines on this input"})
         if i % 4999 == 0:
@@ -843,7 +892,9 @@ def main(tier):
             outside += 1
             continue
         cmp_cases.append(c)
-        cmp_impl.append(a)
+        # [96, reference, %-conversion result]: the oracle has reported the %-conversion defect; the model
+        # (template[escape(format(v, spec))]) is compared with the reference all format() variants agreed on
+        cmp_impl.append(a[1] if (isinstance(a, list) and len(a) == 3 and a[0] == 96) else a)
         cmp_idx.append(i)
     chk.coverage["outside_modelled_xml_subset"] = outside
 
@@ -881,7 +932,8 @@ def main(tier):
         "expat/minidom are outside the model: HTML is modelled over an XML subset (ASCII names, quoted attributes, five entities, "
         "Char production, line-end/attribute normalisation); documents outside it (model answer 3) are not compared: %d this run" % outside,
         "str.format/Formatter.vformat and the % operator are outside the model: the theorems are about template[escape v]; that both "
-        "engines place the escaped value unchanged is exercised by running both on every template case",
+        "engines place the escaped value unchanged is exercised by running both on every template case; for fields with a width/"
+        "alignment/precision spec the model is given format(value, spec) computed by CPython and the engines get the raw value",
         "str.isdigit/int() are modelled from tables regenerated from the running CPython (decimal runs, non-decimal digits, int digit limit)",
         "mouse handlers / tuple tails are opaque ids carried unchanged",
     ]
@@ -899,8 +951,8 @@ def replay(data):
         print("no case in replay file")
         return 2
     m = rep.get("meta")
-    res = sx_norm(impl_case(case))
-    print("input:   " + describe_case(case))
+    res = sx_norm(impl_case(case, m))
+    print("input:   " + describe_case(case) + ((" [format specs %r on raw values %r]" % (m["specs"], m["raw"])) if m and m.get("specs") else ""))
     print("result:  " + short(res, 400))
     rc = 0
     bad = None
@@ -912,5 +964,7 @@ def replay(data):
     else:
         print("oracle ok")
     mm = run_model("c18", [case])[0]
+    if isinstance(res, list) and len(res) == 3 and res[0] == 96:
+        res = res[1]
     print("model agrees" if mm == res else ("model outside its XML subset" if mm == [3] else "model differs: %s" % short(mm, 400)))
     return rc
